@@ -191,6 +191,9 @@ func c15Run(c *Ctx) {
 			Lines(Fun("f", "", " "+Ret(q)+" "), Print("f()"), Print("[f()]")),
 			Print(BI("append", "["+q+"]", q)),
 			Print(BI("keys", "{"+"k"+": 1}")) + "\n" + Print(BI("values", "{k: "+q+"}")),
+			// the string held by a variable (initialised by the plain literal, by a declaration list, by assignment) and placed in containers afterwards
+			Lines(Var("s", q), Print("[s]"), Print("[s, s]"), Var("a", "[0, 0]"), "a[1] = s;", Print("a"), Print(BI("append", "[]", "s")), Print(BI("append", "[s]", "s", "1")), Var("o", "{}"), "o.j = s;", Print("o"), Print("{k: s}"), Print("[[s], {k: [s]}]"), Print(BI("values", "{k: s}"))),
+			Lines(K["var"]+" n = 1, s = "+q+", t = s;", Print("[s, t]"), Var("u", "nil"), "u = "+q+";", Print("[u]"), Fun("wrap", "x", " "+Ret("[x]")+" "), Print("wrap(s)"), Print("wrap("+q+")")),
 		}
 		for pi, p := range progs {
 			x := map[string]string{"placement": fmt.Sprint(pi)}
@@ -214,6 +217,7 @@ func c15Run(c *Ctx) {
 		Lines(Print(`"" + 1 + 2`), Print(`"" + 1000000 + 1`), Var("acc", `""`), For(Var("i", "1"), "i < 4", "i = i + 1", "{ acc = acc + i; }"), Print("acc"), Print(`("" + 5) == 5`), Print(`("" + 5) == "5"`), Print(`!("" + 0)`), Print(`"" + 0.5 + 0.5`), Print(`"" + (0 - 0) + 1`)),
 		Lines(Print(`100 + "%"`), Print(`"%" + 100`), Print(`2.5 + "%%"`), Print(`1 + "%d"`), Print(`"%v" + 1 + "%s"`), Print(`1000000 + "%"`), Print(`0.5 + "% off"`)),
 		Lines(Var("o", "{x: 1, y: \"hi\"}"), Var("a", "[o, o, 0]"), "a[2] = a;", Print("a"), Var("leaf", "{p: 1}"), Var("root", "{p: leaf, q: leaf}"), "root.self = root;", Print("root"), Var("sh", "[7, 8]"), Var("c", "[sh, [sh, sh], 0]"), "c[2] = c;", Print("c"), Print("[c, o]")),
+		Lines(Var("a", "[1, 0, 3]"), "a[1] = a;", Print("a"), Var("b", "[0, 2, 3, 4]"), "b[0] = b;", Print("b"), Var("root", `{name: "root", z: 5}`), `root.items = [root, "tail", 7];`, Print("root"), Var("c", "[[0, 8], 9]"), "c[0][0] = c;", Print("c"), Var("d", "[0, 0, 5]"), "d[0] = d; d[1] = d;", Print("d"), Print("[d, 6]")),
 		Lines(Print(`"a" + 1`), Print(`1 + "a"`), Print(`"x" + 0.5 + "y" + 1000000 + "z"`), Print(`"" + (1/3)`), Print(`(2 ** 70) + ""`)),
 	} {
 		if c.Mine() {
